@@ -49,8 +49,8 @@ PROPS = {
         "Foca never panics",
         {
             "reservoir sampling index, feed estimate division, u16 counters, u16 item length (sending path)": "theorem (full for max_packet_size <= 65535, any codec/handler/oracle): choose_members_no_panic, member_section_no_panic, custom_tail_no_panic, counters_stay_in_range",
-            "send buffer capacity assertion after set_config": "was false (finding F1, fixed by a fix: commit); now covered by correspondence in a debug-assertions build (model site sendBufCap) and by the search",
-            "all other panic sites (receive path, timers, API calls), both build modes": "partial: explicit Stuck.panic constructors in the model; shown unreachable only by correspondence (debug-assertions and release builds, catch_unwind around every call) and search, not by a theorem",
+            "send buffer capacity assertion after set_config": "theorem (full, whole histories): part of C06H.never_panics (NPInv.setConfig: set_config keeps the send buffer in step with max_packet_size — false before the fix: commit for finding F1)",
+            "all other panic sites (receive path, timers, API calls), both build modes": "theorem (full over the model's panic-site inventory, whole histories, debug and release, any input/timer/RNG, packets up to 65535 bytes): C06H.never_panics, C06H.never_panics_step (invariant NPInv: send buffer = configured packet size <= 65535; every guarded assertion is entered only under its condition: become_connected/become_disconnected, apply_update, probe_random_member, expect_indirect_ack; Proofs/NoPanic.lean); that the inventory of sites matches the code is checked by correspondence in debug-assertions and release builds (catch_unwind around every call) and by the search",
             "Config::new_lan / new_wan for every NonZeroU32": "not modelled (floating point); native exhaustive/strided execution in the search",
         },
         RULE_HIST + "search: hostile profile (40% malformed datagrams: truncations, bit flips, trailing bytes, oversized, random bytes; crafted timers; every API call incl. set_config) on real instances in a debug-assertions build with catch_unwind; Config constructors over powers of ten, 2^k boundaries and strided values (all 2^32-1 values in the thorough tier).",
